@@ -184,7 +184,7 @@ def tlc(module, cfg, wd, env=None, workers=16, extra=(), timeout=1800, simulate=
             res["states"] = res["distinct"] = int(m.group(1))
     for m in re.finditer(r"^<(\w+) line \d+, col \d+ to line \d+, col \d+ of module (\w+)>: (\d+):(\d+)", out, re.M):
         res["actions"][m.group(1)] = [int(m.group(3)), int(m.group(4))]
-    m = re.search(r"Invariant (\w+) is violated|Error: (Action property \w+ is violated|Temporal properties were violated|Deadlock reached)|The postcondition[^\n]*violated|Assumption[^\n]*is false", out)
+    m = re.search(r"Invariant (\w+) is violated|Error: (Action property \w+ is violated|Temporal properties were violated|Temporal property \w+ was violated|Deadlock reached)|The postcondition[^\n]*violated|Assumption[^\n]*is false", out)
     if m:
         res["violated"] = m.group(0)
     # rc 0 = ok, 12 = safety violation, 13 = liveness, 10/11 = assumption/deadlock; others = broken
